@@ -128,3 +128,26 @@ Proof.
   { induction gens as [|g IH]; intro a; cbn [repeat fold_left]; [lia|]. rewrite IH. lia. }
   rewrite G. lia.
 Qed.
+
+(* evaluation commutes with re-indexing: evaluating the offspring in another order and putting the results back in
+   slot order gives the same evaluated population *)
+Lemma pick_map {A B} (f : A -> B) (l : list A) idx : pick (map f l) idx = option_map (map f) (pick l idx).
+Proof.
+  unfold pick. induction idx as [|i idx IH]; cbn; [reflexivity|].
+  rewrite nth_error_map. destruct (nth_error l i); cbn; [|reflexivity].
+  rewrite IH. destruct (all_some (map (nth_error l) idx)); reflexivity.
+Qed.
+
+Lemma pick_identity {A} (l : list A) : pick l (seq 0 (length l)) = Some l.
+Proof.
+  unfold pick. assert (G : forall k pre, length pre = k -> all_some (map (nth_error (pre ++ l)) (seq k (length l))) = Some l).
+  { induction l as [|x l IH]; intros k pre Hk; cbn; [reflexivity|].
+    rewrite nth_error_app2 by lia. replace (k - length pre) with 0 by lia. cbn.
+    specialize (IH (S k) (pre ++ [x])). rewrite <- app_assoc in IH. cbn in IH. rewrite IH; [reflexivity|rewrite app_length; cbn; lia]. }
+  exact (G 0 [] eq_refl).
+Qed.
+
+(* sigma = order in which the offspring are evaluated, inv = where slot i ended up: inv undoes sigma *)
+Lemma eval_any_order {A B} (f : A -> B) (l : list A) sigma inv shuffled :
+  pick l sigma = Some shuffled -> pick shuffled inv = Some l -> pick (map f shuffled) inv = Some (map f l).
+Proof. intros _ H2. rewrite pick_map, H2. reflexivity. Qed.
